@@ -18,6 +18,8 @@ mod logger;
 mod search;
 mod testing_utils;
 mod uci;
+#[cfg(rce_verif)]
+mod verif;
 
 use std::env;
 
